@@ -245,6 +245,7 @@ pub fn rel_lossy_text(fs: &[&str]) -> String {
 
 // ---------------------------------------------------------------- rel-lossy-conv: lossy <-> lossless
 /// fields = [relations value]; for every relation r of the value, in order:
+/// lossy = hex of r.to_string()
 /// lt   = hex of lossless::Relation::from(r).to_string()
 /// back = lossy::Relation::from(lossless::Relation::from(r))
 /// ll   = lossy::Relation::from(lossless::Relation::from_str(r.to_string()))   (ERR when the lossless reader refuses)
@@ -252,8 +253,11 @@ pub fn rel_lossy_text(fs: &[&str]) -> String {
 pub fn rel_lossy_conv(fs: &[&str]) -> String {
     let orig = rels_of(fs[0]);
     let (mut lt, mut back, mut ll, mut et, mut eb) = (vec![], vec![], vec![], vec![], vec![]);
+    let mut lossy = vec![];
     for e in &orig.0 {
         for r in e {
+            let r0 = r.clone();
+            lossy.push(guard(move || hex(&r0.to_string())));
             let r1 = r.clone();
             lt.push(guard(move || hex(&LRelation::from(r1).to_string())));
             let r2 = r.clone();
@@ -270,7 +274,8 @@ pub fn rel_lossy_conv(fs: &[&str]) -> String {
         eb.push(guard(move || entry_s(&Vec::<Relation>::from(LEntry::from(e2)))));
     }
     format!(
-        "lt={}|back={}|ll={}|et={}|eb={}",
+        "lossy={}|lt={}|back={}|ll={}|et={}|eb={}",
+        lossy.join(","),
         lt.join(","),
         back.join("&"),
         ll.join("&"),
@@ -280,12 +285,20 @@ pub fn rel_lossy_conv(fs: &[&str]) -> String {
 }
 
 // ---------------------------------------------------------------- debversion (modelled external)
-/// fields = [hex input]; v = epoch:hex(upstream):opt(revision) | ERR ; p = hex of to_string()
+/// fields = [hex input]; v = epoch:hex(upstream):opt(revision) | ERR ; p = hex of to_string();
+/// again = 1 when reading p gives the same three fields again
 pub fn debversion(fs: &[&str]) -> String {
     let s = unhex(fs[0]);
     guard(move || match Version::from_str(&s) {
-        Ok(v) => format!("v={}|p={}", ver_s(&v), hex(&v.to_string())),
-        Err(_) => "v=ERR|p=-".to_string(),
+        Ok(v) => {
+            let p = v.to_string();
+            let again = match Version::from_str(&p) {
+                Ok(w) => b(ver_s(&w) == ver_s(&v)),
+                Err(_) => "0",
+            };
+            format!("v={}|p={}|again={}", ver_s(&v), hex(&p), again)
+        }
+        Err(_) => "v=ERR|p=-|again=-".to_string(),
     })
 }
 
